@@ -60,6 +60,9 @@ static void run_case(const json & c, long offset) {
         typename covfie::field<NN>::view_t v(f);
         auto r = v.at(x);
         for (std::size_t i = 0; i < N; ++i) { ++g_checks; if (!ok(i, r[i])) { json d = ctx; d["axis"] = i; d["chosen"] = r[i]; d["allowed"] = c["allowed"][i]; mismatch(std::string("nn/identity/") + pname<P>(), d); } }
+        // the variadic form of the lookup, at(x0, x1, ...), must take its arguments in the coordinate's own precision
+        auto rv = [&]() { if constexpr (N == 1) return v.at(x[0]); else if constexpr (N == 2) return v.at(x[0], x[1]); else if constexpr (N == 3) return v.at(x[0], x[1], x[2]); else return v.at(x[0], x[1], x[2], x[3]); }();
+        for (std::size_t i = 0; i < N; ++i) { ++g_checks; if (!ok(i, rv[i])) { json d = ctx; d["axis"] = i; d["chosen"] = rv[i]; d["allowed"] = c["allowed"][i]; mismatch(std::string("nn/identity-variadic-lookup/") + pname<P>(), d); } }
     }
     if (offset == 0) {   // over real storage: 8 cells per axis, cell value encodes its coordinate
         using A = cb::array<cv::vector_d<float, 1>>;
@@ -135,6 +138,11 @@ static void trace(rng & r, std::ofstream & out, long n, long & events) {
         ++events;
     }
 }
+
+// the published vector descriptor aliases mean what their names say
+static_assert(std::is_same_v<cv::float1, cv::vector_d<float, 1>> && std::is_same_v<cv::float2, cv::vector_d<float, 2>> && std::is_same_v<cv::float3, cv::vector_d<float, 3>> && std::is_same_v<cv::float4, cv::vector_d<float, 4>>);
+static_assert(std::is_same_v<cv::double1, cv::vector_d<double, 1>> && std::is_same_v<cv::double2, cv::vector_d<double, 2>> && std::is_same_v<cv::double3, cv::vector_d<double, 3>> && std::is_same_v<cv::double4, cv::vector_d<double, 4>>);
+static_assert(std::is_same_v<cv::size1, cv::vector_d<std::size_t, 1>> && std::is_same_v<cv::size2, cv::vector_d<std::size_t, 2>> && std::is_same_v<cv::size3, cv::vector_d<std::size_t, 3>> && std::is_same_v<cv::size4, cv::vector_d<std::size_t, 4>>);
 
 int main(int argc, char ** argv) {
     install_terminate();
